@@ -214,7 +214,7 @@ def install_builder_capture():
     R.compile = capturing_compile
 
 
-def build_map(mi, order, strict, merge):
+def build_map(mi, order, strict, merge, ws=False):
     from werkzeug.routing import Map, Rule
 
     install_builder_capture()
@@ -225,10 +225,10 @@ def build_map(mi, order, strict, merge):
     for t in texts:
         if isinstance(t, dict):
             rules.append(Rule(t["rule"], endpoint=t.get("endpoint", t["rule"]), methods=t.get("methods"), defaults=t.get("defaults"),
-                              alias=t.get("alias", False)))
+                              alias=t.get("alias", False), websocket=ws))
             continue
         r, _, methods = t.partition("|")
-        rules.append(Rule(r, endpoint=t, methods=methods.split(",") if methods else None))
+        rules.append(Rule(r, endpoint=t, methods=methods.split(",") if methods else None, websocket=ws))
     m = Map(rules, strict_slashes=strict, merge_slashes=merge)
     m.update()
     return m, [parse_rule(t) for t in texts]
@@ -257,13 +257,14 @@ def query_form(qform):
     return ImmutableMultiDict([("q", "1"), ("id", "a b"), ("q", "2")]), "q=1&q=2&id=a+b"
 
 
-def body_match(I, X, mi=0, order=0, strict=True, merge=True, n=3, method="GET", check_redirect=True, script="/", scheme="http", pct=False, qbind=False, qform="str"):
+def body_match(I, X, mi=0, order=0, strict=True, merge=True, n=3, method="GET", check_redirect=True, script="/", scheme="http", pct=False, qbind=False, qform="str", ws=False):
     from werkzeug.exceptions import MethodNotAllowed, NotFound
     from werkzeug.routing import RequestRedirect
 
     QA, QS = query_form(qform)
 
-    m, refs = build_map(mi, order, strict, merge)
+    # (ws: every rule is a WebSocket rule and the adapter is bound to ws / wss)
+    m, refs = build_map(mi, order, strict, merge, ws)
     # the query string is given to match(), or (qbind) once at bind time as bind_to_environ does
     adapter = m.bind("example.org", script, url_scheme=scheme, query_args=QA if qbind else None)
     tail = X.str("path", n, minlen=n, maxcp=0x7E)
